@@ -32,6 +32,7 @@ let run_case (id : string) (c : case) (obs : Buffer.t) : bool =
       let ok =
         if need_src then x_sizes_eq d s && List.length d.lay = List.length s.lay
         else if c.what = "vals" then List.length c.args = dn && List.length d.lay <= 2
+                                     && List.for_all (fun f -> i f = 0) (firsts_of d)   (* rows of values are zero-based *)
         else true in
       if not ok then (pr (Printf.sprintf "X %s 0 extents differ" id); false)
       else begin
@@ -69,7 +70,7 @@ let case_text (id : string) (c : case) : string =
   Buffer.contents b
 
 (* a view program reaching sizes `want` from a padded / rotated / strided root: the source side *)
-let gen_src (want : int list) : (int * int) list * op list =
+let gen_src ?(firsts = []) (want : int list) : (int * int) list * op list =
   let d = List.length want in
   let per = List.map (fun n ->
       let stride = if n > 0 && chance 30 then 2 else 1 in
@@ -82,7 +83,9 @@ let gen_src (want : int list) : (int * int) list * op list =
   let undo = List.init r (fun _ -> OUnrotated) in
   let cyc = List.concat_map (fun (n, stride, lo, _) ->
       (if stride = 1 then [ OSliced (z lo, z (lo + n)) ] else [ OSlicedS (z lo, z (lo + n * stride), z stride) ]) @ [ ORotated ]) per in
-  (root, undo @ cyc)
+  (* give the source the destination's index bases (assignment asserts equal extensions) *)
+  let reidx = if List.for_all (fun f -> f = 0) firsts then [] else List.concat_map (fun f -> [ OReindexed (z f); ORotated ]) firsts in
+  (root, undo @ cyc @ reidx)
 
 let gen_case (vc : Views.cfg) : case * string list =
   (* destination: any view program; regenerate until the view is small enough to dump *)
@@ -105,7 +108,7 @@ let gen_case (vc : Views.cfg) : case * string list =
     match what with
     | "fill" -> { dexts; dops; sexts = []; sops = []; what; args = [ rnd_range (-9) 9 ] }
     | "vals" -> { dexts; dops; sexts = []; sops = []; what; args = List.init dn (fun k -> 5000 + k * 7 mod 101) }
-    | _ -> let sexts, sops = gen_src want in { dexts; dops; sexts; sops; what; args = [] } in
+    | _ -> let sexts, sops = gen_src ~firsts:(il (firsts_of dv)) want in { dexts; dops; sexts; sops; what; args = [] } in
   (c, ("do_" ^ what) :: kinds)
 
 (* ---- parsing a program text back (replay, shrinking, corpus) ---- *)
